@@ -151,6 +151,7 @@ function __probe(){
   (async function(){ await null; __pthen += 10 })();
   return out.join();
 }
+function __probe2(){ try { throw 8 } catch (e) { let z = e; return [z, new Error('q').stack.split('\n').length, hostStackDepth(), ++__pl > 0].join() } }
 `
 
 // setupProgs: the setup code of every shape (shared catalogue, extras, stateful), compiled once per process.
@@ -341,6 +342,17 @@ var entries = []string{
 	"resolver", // resolve function of Runtime.NewPromise; the shape runs as a promise reaction job
 }
 
+// boundary names the Go-boundary wrapper an entry kind goes through (signature component).
+func boundary(entry string) string {
+	switch entry {
+	case "run", "nested", "rerun":
+		return "RunProgram"
+	case "call", "ctor", "export", "resolver":
+		return "Callable"
+	}
+	return "Try"
+}
+
 // tryFamily: entry kinds that run under Runtime.Try at top level: an uncatchable error surfaces as a Go panic there and
 // the job queue is only drained by the next RunProgram / Callable (the harness runs an empty "tick" program).
 func tryFamily(entry string) bool {
@@ -401,6 +413,10 @@ func (e *env) classify(err error, pan interface{}) string {
 	}
 	if err == nil {
 		return ""
+	}
+	if errors.Is(err, errGo) {
+		// (an ExportTo'd func with an error result hands out the wrapped Go error itself)
+		return "exc:goerr"
 	}
 	switch x := err.(type) {
 	case *goja.Exception:
@@ -534,8 +550,8 @@ func (e *env) exec(entry, shape string, faults ...Fault) *outcome {
 		// let the pending jobs run, as a host would by its next call
 		func() {
 			defer func() {
-				if x := recover(); x != nil {
-					tickErr = fmt.Errorf("panic: %v", x)
+				if x := recover(); x != nil && pan == nil {
+					pan = x
 				}
 			}()
 			_, tickErr = r.RunProgram(tickProg)
@@ -563,7 +579,7 @@ func (e *env) exec(entry, shape string, faults ...Fault) *outcome {
 	return res
 }
 
-var probeRun = goja.MustCompile("probe_run.js", "__probe()", false)
+var probeRun = goja.MustCompile("probe_run.js", "__probe2()", false)
 
 // probe runs the fixed behavioural probe through a Callable and through RunProgram and renders what it saw.
 func (e *env) probe() (s string) {
@@ -604,6 +620,31 @@ func eq(a, b []string) bool {
 
 func isPrefix(p, full []string) bool {
 	return len(p) <= len(full) && eq(p, full[:len(p)])
+}
+
+// idleDelta renders the fields of the idle state that differ as name=got(want).
+func idleDelta(want, got goja.VerifIdleState) string {
+	var d []string
+	f := func(n string, x, y interface{}) {
+		if x != y {
+			d = append(d, fmt.Sprintf("%s=%v (idle: %v)", n, y, x))
+		}
+	}
+	f("sp", want.SP, got.SP)
+	f("sb", want.SB, got.SB)
+	f("prg==nil", want.PrgNil, got.PrgNil)
+	f("len(callStack)", want.CallStack, got.CallStack)
+	f("len(tryStack)", want.TryStack, got.TryStack)
+	f("len(iterStack)", want.IterStack, got.IterStack)
+	f("len(refStack)", want.RefStack, got.RefStack)
+	f("stash==global", want.StashGlobal, got.StashGlobal)
+	f("privEnv==nil", want.PrivEnvNil, got.PrivEnvNil)
+	f("len(jobQueue)", want.Jobs, got.Jobs)
+	f("interrupted", want.Interrupted, got.Interrupted)
+	f("len(toStringStack)", want.ToStringStack, got.ToStringStack)
+	f("curAsyncRunner==nil", want.AsyncRunnerNil, got.AsyncRunnerNil)
+	f("newTarget==nil", want.NewTargetNil, got.NewTargetNil)
+	return strings.Join(d, ", ")
 }
 
 func idleDiff(a, b goja.VerifIdleState) string {
